@@ -24,6 +24,7 @@ func TestProp(t *testing.T) {
 	addEnum(r)
 	addTransition(r)
 	addHistory(r)
+	addRotEntries(r)
 	r.Main()
 	statMu.Lock()
 	defer statMu.Unlock()
